@@ -91,6 +91,13 @@ def difference(d1, d2, level=-1):
         if key not in d2:
             result[key] = d1[key]
         elif d1[key] != d2[key]:
+            if (level == 1 or not isinstance(d1[key], dict)
+                    or not isinstance(d2[key], dict)):
+                # different values that are not compared recursively
+                # belong to the difference, even if d1[key] is 0, None,
+                # an empty string or an empty dictionary
+                result[key] = d1[key]
+                continue
             res = difference(d1[key], d2[key], level-1)
             # if d2[key] contains all d1[key] elements,
             # the difference will be empty
